@@ -589,3 +589,38 @@ Example codec_example :
   cs_deserialize true [CInt 1; CInt 2; CInt 1] [1; 255; 2; 3; 4; 255; 9]%N = COk (VStruct [VInt 1; VInt 0x0302; VInt 4], [9]%N) /\
   cs_deserialize true [CInt 1; CInt 2; CInt 1] [1; 255; 2; 3; 4]%N = CValueError.
 Proof. vm_compute. repeat split. Qed.
+
+(* the shape of the encoding: for each field its padding (0xFF bytes) then its own encoding, then the final
+   padding (0xFF bytes) up to the struct size *)
+Fixpoint interleave (pads : list (nat * nat)) (chunks : list (list N)) : list N :=
+  match pads, chunks with
+  | (p, _) :: pads', c :: chunks' => repeat padding_byte p ++ c ++ interleave pads' chunks'
+  | _, _ => []
+  end.
+
+Lemma ser_fields_form : forall serf fs pads vs bs, ser_fields serf pads fs vs = Some bs ->
+  exists chunks, Forall2 (fun fv c => serf (fst fv) (snd fv) = Some c) (combine fs vs) chunks /\
+                 length vs = length fs /\ bs = interleave pads chunks.
+Proof.
+  intros serf. induction fs as [|f fs IH]; intros pads vs bs H.
+  - destruct pads, vs; cbn in H; try discriminate. inversion H. exists []. repeat split. constructor.
+  - destruct pads as [|[p s] pads]; destruct vs as [|v vs]; cbn [ser_fields] in H; try discriminate.
+    destruct (serf f v) as [b|] eqn:Eb; [|discriminate].
+    destruct (ser_fields serf pads fs vs) as [bs'|] eqn:Ebs; [|discriminate].
+    assert (E : bs = repeat padding_byte p ++ b ++ bs') by congruence. subst bs. clear H.
+    destruct (IH _ _ _ Ebs) as (chunks & F & L & E). exists (b :: chunks). cbn [combine length interleave].
+    split; [constructor; [exact Eb|exact F]|]. split; [rewrite L; reflexivity|]. rewrite E. reflexivity.
+Qed.
+
+Theorem cs_serialize_form : forall al fs vs b, cs_serialize al fs vs = Some b ->
+  exists chunks, Forall2 (fun fv c => ser al (fst fv) (snd fv) = Some c) (combine fs vs) chunks /\
+    length vs = length fs /\
+    let body := interleave (cs_padded al fs) chunks in
+    b = body ++ repeat padding_byte (cs_size al fs - length body).
+Proof.
+  intros al fs vs b H. unfold cs_serialize in H. cbn [ser] in H.
+  destruct (ser_fields (ser al) (padded (size_align al) fs) fs vs) as [bs|] eqn:E; [|discriminate].
+  assert (Eb : b = ljust (size (size_align al) fs) bs) by congruence. subst b. clear H.
+  destruct (ser_fields_form _ _ _ _ _ E) as (chunks & F & L & Ebs). exists chunks.
+  split; [exact F|]. split; [exact L|]. cbv zeta. unfold cs_padded, cs_size. rewrite <- Ebs. reflexivity.
+Qed.
